@@ -75,8 +75,59 @@ func (ro *Roles) derivedLookups(v ssa.Value, seen map[ssa.Value]bool, out *[]*ss
 func (ro *Roles) formOf(v ssa.Value, keyAP string, depth int) string {
 	return ro.formOfRel(v, func(x ssa.Value) bool {
 		lk := ro.wlLookup(x)
-		return lk != nil && ro.w.AP(lk.Index) == keyAP
+		if lk != nil {
+			return ro.w.AP(lk.Index) == keyAP
+		}
+		// a helper that is handed the list together with its key: every caller passes wl[k] and k
+		if p, ok := ro.w.Resolve(x).(*ssa.Parameter); ok {
+			return ro.paramIsWaitListOfKey(p, keyAP)
+		}
+		return false
 	}, depth)
+}
+
+func (ro *Roles) paramIsWaitListOfKey(p *ssa.Parameter, keyAP string) bool {
+	w := ro.w
+	fn := p.Parent()
+	pi, ki := paramIdxOf(p), -1
+	for i, q := range fn.Params {
+		if w.AP(q) == keyAP {
+			ki = i
+		}
+	}
+	if pi < 0 || ki < 0 || fn.Parent() != nil {
+		return false
+	}
+	n, ok := 0, true
+	for _, f := range w.ModFuncs {
+		allInstrs(f, func(in ssa.Instruction) {
+			if mc, isMC := in.(*ssa.MakeClosure); isMC && mc.Fn == ssa.Value(fn) {
+				ok = false
+			}
+			c := callCommonOf(in)
+			if c == nil {
+				return
+			}
+			for _, a := range c.Args {
+				if funcValue(a) == fn {
+					ok = false
+				}
+			}
+			if c.StaticCallee() != fn {
+				return
+			}
+			n++
+			if pi >= len(c.Args) || ki >= len(c.Args) {
+				ok = false
+				return
+			}
+			lk := ro.wlLookup(c.Args[pi])
+			if lk == nil || w.AP(lk.Index) != w.AP(c.Args[ki]) {
+				ok = false
+			}
+		})
+	}
+	return ok && n > 0
 }
 
 // formOfRel classifies v relative to "the old list", which sameKey recognises.
@@ -472,6 +523,51 @@ func (ro *Roles) noLostUpdate(r *Report, rule string) {
 			}
 			var lks []*ssa.Lookup
 			ro.derivedLookups(mu.Value, map[ssa.Value]bool{}, &lks)
+			// the list may have been loaded by the caller and handed in as a parameter: then the window is
+			// from the caller's load to its call of this function
+			if prm := ro.sliceRootParam(mu.Value); prm != nil && len(lks) == 0 {
+				pi := paramIdxOf(prm)
+				for _, caller := range w.ModFuncs {
+					for _, ci := range findCalls(caller, func(_ string, c *ssa.CallCommon) bool { return c.StaticCallee() == fn }) {
+						if pi >= len(ci.Common().Args) {
+							continue
+						}
+						var clks []*ssa.Lookup
+						ro.derivedLookups(ci.Common().Args[pi], map[ssa.Value]bool{}, &clks)
+						for _, lk := range clks {
+							n++
+							key := FuncName(caller) + ": wait list loaded at " + w.AP(lk) + " and written back by " + fname
+							if lk.Parent() != caller {
+								r.Viol(rule, key, w.InstrPos(ci), "a wait list loaded in an enclosing function is written back by a helper when a closure runs: whatever changed the wait list in between is lost")
+								continue
+							}
+							res := PathQuery{Fn: caller, Start: []ssa.Instruction{lk},
+								Target: func(x ssa.Instruction) bool {
+									c, ok := x.(*ssa.Call)
+									if !ok || ssa.Instruction(c) == ssa.Instruction(ci) {
+										return false
+									}
+									for _, callee := range w.Callees(c) {
+										if writers[callee] {
+											back := PathQuery{Fn: caller, Start: []ssa.Instruction{c}, Target: func(y ssa.Instruction) bool { return y == ssa.Instruction(ci) },
+												BlockInstr: func(y ssa.Instruction) bool { return y == ssa.Instruction(lk) }}.Find()
+											if back.Found {
+												return true
+											}
+										}
+									}
+									return false
+								}}.Find()
+							if res.Found {
+								c := res.Target.(*ssa.Call)
+								r.Viol(rule, key, w.InstrPos(ci), fmt.Sprintf("the wait list is loaded at %s, then %s is called (it can modify the wait list: %s), and the stale copy is handed to %s, which writes it back: entries popped or removed in between reappear", w.InstrPos(lk), nameOr(calleeName(&c.Call), "a callback"), w.InstrPos(c), fname))
+							} else {
+								r.OK(rule, key, w.InstrPos(ci), "no call that can modify the wait list lies between the load and the call of the helper that writes it back")
+							}
+						}
+					}
+				}
+			}
 			for _, lk := range lks {
 				n++
 				key := fname + ": write-back of the wait list loaded at " + w.AP(lk)
@@ -513,3 +609,28 @@ func (ro *Roles) noLostUpdate(r *Report, rule string) {
 
 // ---------------------------------------------------------------------------------
 // dequeue loop rules
+
+// sliceRootParam: v is a parameter of its function, or a reslice/append chain rooted in one.
+func (ro *Roles) sliceRootParam(v ssa.Value) *ssa.Parameter {
+	w := ro.w
+	for i := 0; i < 8; i++ {
+		v = w.Resolve(v)
+		switch x := v.(type) {
+		case *ssa.Parameter:
+			return x
+		case *ssa.Slice:
+			v = x.X
+		case *ssa.ChangeType:
+			v = x.X
+		case *ssa.Call:
+			if b, ok := x.Call.Value.(*ssa.Builtin); ok && b.Name() == "append" {
+				v = x.Call.Args[0]
+				continue
+			}
+			return nil
+		default:
+			return nil
+		}
+	}
+	return nil
+}
